@@ -564,25 +564,23 @@ def r203(ctx, rep, f, ev, cg, reach):
     ok = False
     msg = ""
     if ct in f.fns:
-        ev.watch = lambda c: c == mt
-        ev.watch_codes = True
-        try:
-            recs = ev.collect_ifs(ct, [Sym("T"), Sym("Q"), Sym("P")])
-        finally:
-            ev.watch = None
-            ev.watch_codes = False
-        calls = [o for o in recs if "call" in o]
-        codes = [o for o in recs if "code" in o]
+        # evaluated with the period comparison replaced by each of its two outcomes: the arguments it receives are
+        # recorded, Ok must stay Ok and Err must become an Err (carrying the [E45] text) — whatever the control structure
+        from ..thir import Agg as _Agg
+        from ..emit import all_code_literals
         exp = ["sym(BitAnd(sym(T.trigger_bc_reserved1),0xfff))", "sym(BitAnd(sym(Q.trigger_bc_reserved1),0xfff))", "sym(P)"]
-        ok = len(calls) == 1 and calls[0]["args"] == exp and not calls[0]["guard"] and [o["code"] for o in codes] == ["E45"] \
-            and any("isErr(" in g and not g.startswith("not ") for g in codes[0]["guard"])
-        msg = "args=%s codes=%s" % ([o["args"] for o in calls], [(o["code"], [g[:40] for g in o["guard"]]) for o in codes])
-        # the function returns Err exactly on that branch
-        try:
-            rv = vkey(ev.call_fn(ct, [Sym("T"), Sym("Q"), Sym("P")]))
-            ok = ok and rv.count("Result::Ok(0=())") >= 1 and "Result::Err(0=" in rv
-        except Unsupported:
-            ok = False
+        outcome, seen_args = {}, []
+        for case, val in (("ok", _Agg("core::result::Result", "Ok", {"0": ()})), ("err", _Agg("core::result::Result", "Err", {"0": Sym("DETECTED")}))):
+            ev.call_hooks = [(lambda fn, res: (res or fn) == mt, lambda n, a, val=val: (seen_args.append([vkey(x) for x in a]), val)[1])]
+            try:
+                outcome[case] = vkey(ev.call_fn(ct, [Sym("T"), Sym("Q"), Sym("P")]))
+            except Unsupported as e:
+                outcome[case] = "unevaluable %s" % e
+            finally:
+                ev.call_hooks = []
+        codes = sorted({c_ for c_, fn_, w_ in all_code_literals(f, [q for q in f.fns if q == ct or q.startswith(ct + "::{closure")])})
+        ok = seen_args == [exp, exp] and outcome["ok"] == "Result::Ok(0=())" and outcome["err"].startswith("Result::Err(0=") and "DETECTED" in outcome["err"] and codes == ["E45"]
+        msg = "args=%s codes=%s ok→%s err→%s" % (seen_args[:1], codes, outcome["ok"][:40], outcome["err"][:40])
     rep.check(ok, "R20.3", "R20.3|args|check_trigger_interval", "period computed from (current.trigger_bc, previous.trigger_bc, P), 12-bit fields; Err → [E45] (%s)" % msg[:200], W,
               "check_trigger_interval does not call matches_trigger_interval(tdh.trigger_bc(), prev.trigger_bc(), period) and map Err to [E45]: %s" % msg)
     cs = sorted(set(c for c, *_ in cg.call_sites(lambda p_: p_ == mt) if c in reach))
